@@ -997,7 +997,8 @@ pub fn run(args: &Args) -> Shard {
         let mut visits = J::obj();
         for (site, n) in sched().visit_counts() { visits.set(format!("{:?}", site), J::Int(n as i128)); }
         shard.extra = J::obj().with("site_visits", visits).with("gate_holds", J::Int(sched().gate_holds.load(Ordering::SeqCst) as i128))
-            .with("gate_timeouts", J::Int(sched().gate_timeouts.load(Ordering::SeqCst) as i128));
+            .with("gate_timeouts", J::Int(sched().gate_timeouts.load(Ordering::SeqCst) as i128))
+            .with("live_threads_at_case_start", J::Int(LIVE_THREADS_AT_CASE_START.load(Ordering::SeqCst) as i128));
     }
     shard
 }
